@@ -123,8 +123,18 @@ def run_case(stream, seed, ctx, params):
         on_card = set(cid for cid in table if rng.random() < 0.4)
     if mode != 'cards':
         d.imp_cards = {}
+        # a cell that states its importance on its own card takes that one: the entry at its position of the data
+        # card is then immaterial, and half of the time it says the opposite (zero where the card says non-zero and
+        # the reverse)
+        decoy = {c.id: rng.random() < 0.5 for c in d.cells if c.id in on_card}
+
+        def entry(c, p):
+            v = table[c.id][p]
+            if decoy.get(c.id):
+                return float(rng.choice([1, 2])) if max(table[c.id].values()) == 0 else 0.0
+            return v
         for p in parts:
-            d.imp_cards[p] = compress([table[c.id][p] for c in d.cells], rng)
+            d.imp_cards[p] = compress([entry(c, p) for c in d.cells], rng)
     for c in d.cells:
         if c.id in on_card:
             if len(parts) > 1 and len(set(table[c.id].values())) == 1 and rng.random() < 0.4:
